@@ -247,7 +247,7 @@ func (s *shared) violate(what, sig string, replay interface{}) {
 
 func runC05(c *Ctx) {
 	im := NewImpl("C05", c.Seed, c.Tier)
-	im.Rule = "local: one scripted producer (bash script emitting writes and pauses of a byte pattern: empty output, 1 byte, 64 KiB multiples and straddles, output after a pause, pause before exit, failing exit, cancelled, random plans from the seed) per unit; one observation = one `work results <unit> <p>` session asked before / while / after the unit runs with p in {0, 1, write boundaries and their neighbours, size, size+1}; non-trivial = the unit has output and (the session overlaps the run or p > 0). remote: one transfer through a TCP proxy that cuts and heals the link, one observation = one 50 ms sample of (local stdout, remote stdout), non-trivial = local non-empty and shorter than remote; distinct by (plan, moment, p) / sample content"
+	im.Rule = "local: one scripted producer (bash script emitting writes and pauses of a byte pattern: empty output, 1 byte, 64 KiB multiples and straddles, output after a pause, pause before exit, failing exit, cancelled, random plans from the seed) per unit; one observation = one `work results <unit> <p>` session asked before / while / after the unit runs with p in {0, 1, write boundaries and their neighbours, size, size+1}; non-trivial = the unit has output and (the session overlaps the run or p > 0). remote: one transfer through a TCP proxy that cuts and heals the link, one observation = one 50 ms sample of (local stdout, remote stdout), non-trivial = local non-empty and shorter than remote; plus transfers over a link that holds the remote node's bytes for 300-900 ms and releases them in one write (several units, stalls repeated throughout) and transfers from a scripted stand-in remote node that writes the results header and the first output in one write or splits the header at a position (quick: a sample of positions, thorough: every position), one observation = one 50 ms look at the local stdout or one `work results` session on the mirrored unit; distinct by (plan, moment, p) / sample content / (mode, offset)"
 	if c.Bin == "" {
 		fmt.Fprintln(os.Stderr, "C05 needs the receptor binary (VERIF_BIN)")
 		os.Exit(3)
